@@ -57,6 +57,7 @@ op_strategy = st.one_of(
     st.fixed_dictionaries({"op": st.just("add"), "img": st.integers(0, 10), "variant": st.sampled_from(CELL_VARIANTS),
                            "arch": st.sampled_from(CELL_ARCHES), "fresh": st.booleans()}),
     st.just({"op": "roundtrip"}),
+    st.just({"op": "dumps"}),
 )
 history_strategy = st.fixed_dictionaries({"pool": pool_strategy(), "version": st.sampled_from(["0.0", "1.0", "1.1", "1.2", "1.2", "1.1"]),
                                            "ops": st.lists(op_strategy, min_size=1, max_size=25)})
@@ -126,6 +127,10 @@ def history_case(case):
                 model.setdefault((op["variant"], op["arch"]), {})[key] = rec
                 if any(ident(r) == ident(rec) and r["checksums"] == rec["checksums"] for r in stored):
                     accepted_equal += 1
+        elif op["op"] == "dumps":
+            # written, but the caller goes on with the same object (which is now at the current version)
+            must("dumps", im.dumps)
+            version = "1.2"
         else:
             text = must("dumps", im.dumps)
             version = "1.2"          # writing converts the object to the current format
@@ -163,6 +168,8 @@ def history_case(case):
         labels.append("accepted-equal-identity")
     if any(o["op"] == "roundtrip" for o in case["ops"]):
         labels.append("roundtrip")
+    if any(o["op"] == "dumps" for o in case["ops"]):
+        labels.append("dumps-and-continue")
     return {"nontrivial": bool(refused and accepted_equal), "labels": labels}
 
 
